@@ -10,6 +10,7 @@ import Rl.Lemmas.History
 import Rl.Hint
 import Rl.Spec.Hint
 import Rl.Lemmas.Hint
+import Rl.Lemmas.HistoryLog
 open Rl Rl.MemHist
 
 /-- abstraction map: model state ↦ spec state -/
@@ -498,3 +499,417 @@ theorem C09_hinter_pipeline (ws : Char → Bool) (m : Nat) (isp idp : Bool) (es 
     rw [← this, ← ha]; rfl
   rw [he]
   exact C09_hinter_eq_spec _ _ line pos (Nat.le_refl _) hp
+
+/-! ## Gap filling (package A9): the store against the log of accepted lines, for arbitrary
+    operation sequences; `set_max_len` alone; search completeness. -/
+
+/-- The log of accepted lines of an operation sequence run on the model from `h`: the lines for
+    which `add` / `add_owned` answered `true` since the last `clear`, oldest first, appended to
+    `acc` (`Rl.accLog`; which lines are answered `true` is exactly characterised by `C09_add_iff`,
+    with the Unicode white-space predicate `ws` applied to the first CHARACTER of the line). -/
+def C09_accepted (ws : Char → Bool) (h : MemHist) (acc : List Text) (ops : List HOp) : List Text :=
+  accLog ws h acc ops
+
+/-- For EVERY operation sequence (add, add_owned, set_max_len raised or lowered, ignore_dups,
+    ignore_space, clear, queries) from ANY store `h`, the final entries are a contiguous newest
+    block (a list suffix) of "the entries of `h` followed by the lines accepted since, restarting at
+    `clear`": nothing refused is ever stored, nothing is reordered or duplicated, and an older
+    line is never kept while a newer accepted one is dropped.  No hypotheses. -/
+theorem C09_entries_suffix_of_accepted (ws : Char → Bool) (h : MemHist) (ops : List HOp) :
+    (MemHist.run ws h ops).1.entries <:+ C09_accepted ws h h.entries ops :=
+  run_suffix ws (List.suffix_refl _) ops
+
+/-- The same from a fresh history: the store is always a newest block of the accepted lines. -/
+theorem C09_fresh_entries_suffix_of_accepted (ws : Char → Bool) (m : Nat) (isp idp : Bool)
+    (ops : List HOp) :
+    (MemHist.run ws (MemHist.new m isp idp) ops).1.entries
+      <:+ C09_accepted ws (MemHist.new m isp idp) [] ops :=
+  run_suffix ws (List.suffix_refl _) ops
+
+/-- Exact content.  From any store within its bound, for every operation sequence in which no
+    `set_max_len` RAISES the limit above its current value (lowering, flag changes, `clear`, adds
+    and queries are unrestricted), the final entries are exactly the newest `max_len` (final limit)
+    lines of "old entries followed by the accepted lines, restarting at `clear`", oldest first.
+    In particular lowering the limit in the middle of a sequence drops exactly the oldest lines. -/
+theorem C09_entries_eq_window (ws : Char → Bool) (h : MemHist) (hi : h.entries.length ≤ h.maxLen)
+    (ops : List HOp) (hnr : nonRaising h.maxLen ops) :
+    (MemHist.run ws h ops).1.entries
+      = Spec.takeLast (MemHist.run ws h ops).1.maxLen (C09_accepted ws h h.entries ops) := by
+  have hw : Win h h.entries := by
+    simp only [Win, Spec.takeLast]
+    have : h.entries.length - h.maxLen = 0 := by omega
+    simp [this]
+  exact run_win ws hw ops hnr
+
+/-- From a fresh history (limit `m`), with the limit never raised: the store is exactly the newest
+    `max_len` accepted lines since the last `clear`. -/
+theorem C09_fresh_entries_eq_window (ws : Char → Bool) (m : Nat) (isp idp : Bool)
+    (ops : List HOp) (hnr : nonRaising m ops) :
+    (MemHist.run ws (MemHist.new m isp idp) ops).1.entries
+      = Spec.takeLast (MemHist.run ws (MemHist.new m isp idp) ops).1.maxLen
+          (C09_accepted ws (MemHist.new m isp idp) [] ops) :=
+  C09_entries_eq_window ws (MemHist.new m isp idp) (by simp [MemHist.new]) ops hnr
+
+/-- non-vacuity of `C09_entries_eq_window`: limit 3 lowered to 2, a duplicate and a blank-first
+    line refused, a multi-byte line accepted. -/
+example :
+    nonRaising 3 [.add "a".toList, .add "a".toList, .add "\u3000x".toList, .setMax 2, .add "bé".toList, .addOwned "c".toList] ∧
+    C09_accepted (fun c => c == '\u3000') (MemHist.new 3 true true) []
+      [.add "a".toList, .add "a".toList, .add "\u3000x".toList, .setMax 2, .add "bé".toList, .addOwned "c".toList]
+      = ["a".toList, "bé".toList, "c".toList] := by
+  refine ⟨by simp [nonRaising], by decide⟩
+
+/-- The "never raised" hypothesis of `C09_entries_eq_window` is necessary (and this is the intended
+    behaviour, not a defect): lines dropped by lowering the limit do not come back when it is raised
+    again, so after lower-then-raise the store is a newest block of the accepted lines
+    (`C09_entries_suffix_of_accepted`) that is SHORTER than the limit allows. -/
+theorem C09_raise_does_not_restore :
+    let ops : List HOp := [.add "a".toList, .add "b".toList, .setMax 1, .setMax 5, .add "c".toList]
+    (MemHist.run (fun c => c == ' ') (MemHist.new 5 false false) ops).1.entries = ["b".toList, "c".toList] ∧
+    C09_accepted (fun c => c == ' ') (MemHist.new 5 false false) [] ops = ["a".toList, "b".toList, "c".toList] := by
+  decide
+
+/-- `set_max_len n` on ANY store (no hypothesis): the limit becomes `n`, the flags are unchanged,
+    the entries become exactly the newest `n` old entries (the oldest `len - n` are dropped, nothing
+    else), the new length is `min len n`, and the new i-th entry is the old `(i + (len - n))`-th. -/
+theorem C09_set_max_len (h : MemHist) (n : Nat) :
+    (h.setMaxLen n).maxLen = n ∧ (h.setMaxLen n).ignoreSpace = h.ignoreSpace ∧
+    (h.setMaxLen n).ignoreDups = h.ignoreDups ∧
+    (h.setMaxLen n).entries = h.entries.drop (h.entries.length - n) ∧
+    (h.setMaxLen n).entries.length = min h.entries.length n ∧
+    ∀ i, (h.setMaxLen n).get i = h.get (i + (h.entries.length - n)) := by
+  have he : (h.setMaxLen n).entries = h.entries.drop (h.entries.length - n) := by
+    simp only [MemHist.setMaxLen]
+    split
+    · rfl
+    · rename_i hle
+      have : h.entries.length - n = 0 := by simp at hle; omega
+      simp [this]
+  refine ⟨?_, ?_, ?_, he, ?_, ?_⟩
+  · simp only [MemHist.setMaxLen]; split <;> rfl
+  · simp only [MemHist.setMaxLen]; split <;> rfl
+  · simp only [MemHist.setMaxLen]; split <;> rfl
+  · rw [he, List.length_drop]; omega
+  · intro i
+    simp only [MemHist.get, he, List.getElem?_drop]
+    congr 1; omega
+
+/-- Substring search finds what is there: if the text is non-empty, the start index is in range
+    and SOME entry on the requested side of `start` (inclusive) contains the text, the search
+    answers a hit whose index lies between `start` and that entry (so it is never missed and never
+    farther away). -/
+theorem C09_search_finds (h : MemHist) (t : Text) (s : Nat) (d : Dir) (j : Nat) (e' : Text) (o : Nat)
+    (ht : t ≠ []) (hs : s < h.entries.length) (hj : h.entries[j]? = some e') (ho : OccursAt t e' o)
+    (hside : (d = .forward → s ≤ j) ∧ (d = .reverse → j ≤ s)) :
+    ∃ i e off, h.search t s d = some (i, e, off) ∧
+      (d = .forward → s ≤ i ∧ i ≤ j) ∧ (d = .reverse → j ≤ i ∧ i ≤ s) := by
+  cases hres : h.search t s d with
+  | none =>
+    rcases (C09_search_none h t s d).1 hres with h1 | h1 | ⟨hf, hr⟩
+    · exact absurd h1 ht
+    · omega
+    · cases d with
+      | forward => exact absurd ho (hf rfl j e' (hside.1 rfl) hj o)
+      | reverse => exact absurd ho (hr rfl j e' (hside.2 rfl) hj o)
+  | some r =>
+    obtain ⟨i, e, off⟩ := r
+    obtain ⟨_, _, _, hf, hr⟩ := C09_search_sound h t s d i e off hres
+    refine ⟨i, e, off, rfl, ?_, ?_⟩
+    · intro hd
+      obtain ⟨h1, h2⟩ := hf hd
+      refine ⟨h1, ?_⟩
+      rcases Nat.lt_or_ge j i with hlt | hge
+      · exact absurd ho (h2 j e' (hside.1 hd) hlt hj o)
+      · exact hge
+    · intro hd
+      obtain ⟨h1, h2⟩ := hr hd
+      refine ⟨?_, h1⟩
+      rcases Nat.lt_or_ge i j with hlt | hge
+      · exact absurd ho (h2 j e' hlt (hside.2 hd) hj o)
+      · exact hge
+
+/-- Prefix search finds what is there (same as `C09_search_finds` for `starts_with`). -/
+theorem C09_starts_with_finds (h : MemHist) (t : Text) (s : Nat) (d : Dir) (j : Nat) (e' : Text)
+    (ht : t ≠ []) (hs : s < h.entries.length) (hj : h.entries[j]? = some e') (hp : t <+: e')
+    (hside : (d = .forward → s ≤ j) ∧ (d = .reverse → j ≤ s)) :
+    ∃ i e, h.startsWith t s d = some (i, e, blen t) ∧
+      (d = .forward → s ≤ i ∧ i ≤ j) ∧ (d = .reverse → j ≤ i ∧ i ≤ s) := by
+  cases hres : h.startsWith t s d with
+  | none =>
+    rcases (C09_starts_with_none h t s d).1 hres with h1 | h1 | ⟨hf, hr⟩
+    · exact absurd h1 ht
+    · omega
+    · cases d with
+      | forward => exact absurd hp (hf rfl j e' (hside.1 rfl) hj)
+      | reverse => exact absurd hp (hr rfl j e' (hside.2 rfl) hj)
+  | some r =>
+    obtain ⟨i, e, off⟩ := r
+    obtain ⟨_, _, hoff, hf, hr⟩ := C09_starts_with_sound h t s d i e off hres
+    subst hoff
+    refine ⟨i, e, rfl, ?_, ?_⟩
+    · intro hd
+      obtain ⟨h1, h2⟩ := hf hd
+      refine ⟨h1, ?_⟩
+      rcases Nat.lt_or_ge j i with hlt | hge
+      · exact absurd hp (h2 j e' (hside.1 hd) hlt hj)
+      · exact hge
+    · intro hd
+      obtain ⟨h1, h2⟩ := hr hd
+      refine ⟨?_, h1⟩
+      rcases Nat.lt_or_ge i j with hlt | hge
+      · exact absurd hp (h2 j e' hlt (hside.2 hd) hj)
+      · exact hge
+
+/-- non-vacuity of the two `finds` theorems: a two-byte term found at byte offset 1, reverse,
+    nearest of two candidates. -/
+example :
+    let h := (MemHist.run (fun c => c == ' ') (MemHist.new 5 false false)
+      [.add "aéb".toList, .add "zéb".toList, .add "q".toList]).1
+    h.search "é".toList 2 .reverse = some (1, "zéb".toList, 1) ∧
+    h.startsWith "zé".toList 0 .forward = some (1, "zéb".toList, 3) := by
+  decide
+
+/-- One public mutating operation on `FileHistory` (model `FileHist`: `add`/`add_owned`,
+    `set_max_len`, `clear` are the model's own functions; `ignore_dups` / `ignore_space` delegate to
+    the inner `MemHistory` as in `src/history.rs`; queries do not change the state). -/
+def C09_fileStep (ws : Char → Bool) (f : FileHist) : HOp → FileHist
+  | .add l | .addOwned l => (f.add ws l).1
+  | .setMax n => f.setMaxLen n
+  | .dups b => { f with mem := f.mem.setIgnoreDups b }
+  | .space b => { f with mem := f.mem.setIgnoreSpace b }
+  | .clear => f.clear
+  | _ => f
+
+/-- `FileHistory` run of an operation sequence. -/
+def C09_fileRun (ws : Char → Bool) (f : FileHist) : List HOp → FileHist
+  | [] => f
+  | op :: ops => C09_fileRun ws (C09_fileStep ws f op) ops
+
+/-- For every operation sequence, the in-memory part of the file history is exactly the
+    `MemHistory` obtained by the same sequence (so every C09 theorem about the store — bound,
+    content, acceptance — holds for `FileHistory` too), and the unsaved-entries counter never
+    exceeds the number of stored entries if it did not at the start.  (Lifts the single-step
+    `C09_new_entries_le` to arbitrary sequences including `set_max_len` and `clear`.) -/
+theorem C09_file_run (ws : Char → Bool) (f : FileHist) (ops : List HOp)
+    (h0 : f.newEntries ≤ f.mem.entries.length) :
+    (C09_fileRun ws f ops).mem = (MemHist.run ws f.mem ops).1 ∧
+    (C09_fileRun ws f ops).newEntries ≤ (C09_fileRun ws f ops).mem.entries.length := by
+  induction ops generalizing f with
+  | nil => exact ⟨rfl, h0⟩
+  | cons op ops ih =>
+    have hstep : (C09_fileStep ws f op).mem = (f.mem.step ws op).1 ∧
+        (C09_fileStep ws f op).newEntries ≤ (C09_fileStep ws f op).mem.entries.length := by
+      have hadd : ∀ l, (f.add ws l).1.mem = (f.mem.add ws l).1 := by
+        intro l
+        unfold FileHist.add
+        cases hm : f.mem.add ws l with
+        | mk m ok => cases ok <;> simp [MemHist.add] at hm ⊢ <;> (split at hm <;> simp_all)
+      cases op with
+      | add l => exact ⟨hadd l, C09_new_entries_le ws f l h0⟩
+      | addOwned l => exact ⟨hadd l, C09_new_entries_le ws f l h0⟩
+      | setMax n =>
+        refine ⟨rfl, ?_⟩
+        simp only [C09_fileStep, FileHist.setMaxLen]
+        have := (C09_set_max_len f.mem n).2.2.2.2.1
+        rw [this]; omega
+      | dups b => exact ⟨rfl, h0⟩
+      | space b => exact ⟨rfl, h0⟩
+      | clear => exact ⟨rfl, by simp [C09_fileStep, FileHist.clear, MemHist.clear]⟩
+      | get i => exact ⟨rfl, h0⟩
+      | len => exact ⟨rfl, h0⟩
+      | dump => exact ⟨rfl, h0⟩
+      | search t s d => exact ⟨rfl, h0⟩
+      | startsWith t s d => exact ⟨rfl, h0⟩
+    obtain ⟨ih1, ih2⟩ := ih (C09_fileStep ws f op) hstep.2
+    simp only [C09_fileRun, MemHist.run]
+    exact ⟨by rw [ih1, hstep.1], ih2⟩
+
+/-- non-vacuity of `C09_file_run`: a fresh file history satisfies the hypothesis, and after a
+    sequence with eviction and a lowered limit the counter is capped by the store. -/
+example :
+    (FileHist.new 3 false true).newEntries ≤ (FileHist.new 3 false true).mem.entries.length ∧
+    (C09_fileRun (fun c => c == ' ') (FileHist.new 3 false true)
+      [.add "a".toList, .add "a".toList, .add "b".toList, .add "c".toList, .add "d".toList, .setMax 2]).newEntries = 2 := by
+  decide
+
+/-- The model's `ignore` test is the declarative refusal rule of the spec (empty line, limit zero,
+    first CHARACTER is white space — the Unicode predicate `ws`, not a byte test — while
+    ignore-space is on, equal to the newest entry while ignore-duplicates is on), on every store. -/
+theorem C09_ignore_eq_refused (ws : Char → Bool) (h : MemHist) (l : Text) :
+    h.ignore ws l = Spec.refused ws (C09_abs h) l := by
+  unfold Spec.refused MemHist.ignore C09_abs
+  cases l with
+  | nil => simp
+  | cons c t =>
+    by_cases hm : h.maxLen = 0
+    · simp [hm]
+    · cases hsp : h.ignoreSpace <;> cases hd : h.ignoreDups <;> simp [hm]
+      · cases hl : h.entries.getLast? <;> simp
+        rename_i v; by_cases hv : v = c :: t <;> simp [hv]
+      · cases hw : ws c <;> simp
+        cases hl : h.entries.getLast? <;> simp
+        rename_i v; by_cases hv : v = c :: t <;> simp [hv]
+
+/-- What the log of accepted lines (used by `C09_entries_suffix_of_accepted` /
+    `C09_entries_eq_window`) records, in declarative terms: an `add` appends its line to the log
+    iff the spec's refusal rule does not hold at the store reached so far; `clear` empties the log;
+    nothing else touches it. -/
+theorem C09_accepted_unfold (ws : Char → Bool) (h : MemHist) (acc : List Text) (ops : List HOp) :
+    (∀ l, C09_accepted ws h acc (.add l :: ops)
+        = C09_accepted ws (h.add ws l).1 (if Spec.refused ws (C09_abs h) l then acc else acc ++ [l]) ops) ∧
+    (∀ l, C09_accepted ws h acc (.addOwned l :: ops)
+        = C09_accepted ws (h.add ws l).1 (if Spec.refused ws (C09_abs h) l then acc else acc ++ [l]) ops) ∧
+    C09_accepted ws h acc (.clear :: ops) = C09_accepted ws h.clear [] ops ∧
+    (∀ n, C09_accepted ws h acc (.setMax n :: ops) = C09_accepted ws (h.setMaxLen n) acc ops) ∧
+    (∀ b, C09_accepted ws h acc (.dups b :: ops) = C09_accepted ws (h.setIgnoreDups b) acc ops) ∧
+    (∀ b, C09_accepted ws h acc (.space b :: ops) = C09_accepted ws (h.setIgnoreSpace b) acc ops) := by
+  have hadd : ∀ l, (h.add ws l).2 = !(Spec.refused ws (C09_abs h) l) := by
+    intro l
+    rw [← C09_ignore_eq_refused]
+    unfold MemHist.add; split <;> simp_all
+  refine ⟨?_, ?_, rfl, fun _ => rfl, fun _ => rfl, fun _ => rfl⟩
+  · intro l
+    simp only [C09_accepted, accLog, MemHist.step, hadd l]
+    cases Spec.refused ws (C09_abs h) l <;> rfl
+  · intro l
+    simp only [C09_accepted, accLog, MemHist.step, hadd l]
+    cases Spec.refused ws (C09_abs h) l <;> rfl
+
+/-- State refinement for arbitrary operation sequences: running the declarative spec from the
+    abstraction of a store within its bound ends in the abstraction of the model's final store
+    (entries, limit and both flags), not only with equal observations (`C09_run_eq_spec`). -/
+theorem C09_run_abs (ws : Char → Bool) (h : MemHist) (hi : h.entries.length ≤ h.maxLen)
+    (ops : List HOp) :
+    (Spec.run ws (C09_abs h) ops).1 = C09_abs (MemHist.run ws h ops).1 := by
+  induction ops generalizing h with
+  | nil => rfl
+  | cons op ops ih =>
+    have hstep : (Spec.step ws (C09_abs h) op).1 = C09_abs (h.step ws op).1 := by
+      have hobs : [(h.step ws op).2, HObs.all (h.step ws op).1.entries]
+          = [(Spec.step ws (C09_abs h) op).2, HObs.all (Spec.step ws (C09_abs h) op).1.entries] :=
+        C09_run_eq_spec ws h hi [op, .dump]
+      have hent : (h.step ws op).1.entries = (Spec.step ws (C09_abs h) op).1.entries := by
+        simp only [List.cons.injEq, HObs.all.injEq] at hobs
+        exact hobs.2.1
+      have hfr : (Spec.step ws (C09_abs h) op).1.max = (h.step ws op).1.maxLen ∧
+          (Spec.step ws (C09_abs h) op).1.ignoreSpace = (h.step ws op).1.ignoreSpace ∧
+          (Spec.step ws (C09_abs h) op).1.ignoreDups = (h.step ws op).1.ignoreDups := by
+        have hm : ∀ l, (h.add ws l).1.maxLen = h.maxLen ∧ (h.add ws l).1.ignoreSpace = h.ignoreSpace ∧
+            (h.add ws l).1.ignoreDups = h.ignoreDups := by
+          intro l; unfold MemHist.add; split <;> simp [MemHist.insert]
+        cases op with
+        | add l => simp only [Spec.step, MemHist.step, hm l]; split <;> exact ⟨rfl, rfl, rfl⟩
+        | addOwned l => simp only [Spec.step, MemHist.step, hm l]; split <;> exact ⟨rfl, rfl, rfl⟩
+        | setMax n => exact ⟨(C09_set_max_len h n).1.symm, (C09_set_max_len h n).2.1.symm, (C09_set_max_len h n).2.2.1.symm⟩
+        | _ => exact ⟨rfl, rfl, rfl⟩
+      cases hS : (Spec.step ws (C09_abs h) op).1 with
+      | mk e m a b =>
+        rw [hS] at hent hfr
+        simp only at hent hfr
+        simp only [C09_abs, hent, hfr.1, hfr.2.1, hfr.2.2]
+    have hrun : (Spec.run ws (C09_abs h) (op :: ops)).1 = (Spec.run ws (Spec.step ws (C09_abs h) op).1 ops).1 := rfl
+    rw [hrun, hstep]
+    exact ih _ (step_inv ws hi op)
+
+/-- The size bound holds after any operation sequence from ANY store within its bound (not only
+    from a fresh one, cf. `C09_len_le_max`), e.g. a store filled by `load`. -/
+theorem C09_len_le_max_from (ws : Char → Bool) (h : MemHist) (hi : h.entries.length ≤ h.maxLen)
+    (ops : List HOp) :
+    (MemHist.run ws h ops).1.entries.length ≤ (MemHist.run ws h ops).1.maxLen :=
+  run_inv ws hi ops
+
+/-- Exact characterisation of a substring-search answer (soundness and completeness in one
+    statement): `search` answers `(i, e, off)` IF AND ONLY IF the text is non-empty, the start is in
+    range, `e` is the `i`-th oldest entry, `off` is the byte offset of the FIRST occurrence of the
+    text in `e` (byte offsets, so multi-byte characters before the match count with their UTF-8
+    length), `i` is on the requested side of `start` (inclusive) and no entry strictly nearer to
+    `start` in that direction contains the text.  No hypotheses on the store. -/
+theorem C09_search_iff (h : MemHist) (t : Text) (s : Nat) (d : Dir) (i : Nat) (e : Text) (off : Nat) :
+    h.search t s d = some (i, e, off) ↔
+      (t ≠ [] ∧ s < h.entries.length ∧ h.entries[i]? = some e ∧ OccursAt t e off ∧
+       (∀ o, OccursAt t e o → off ≤ o) ∧
+       (d = .forward → s ≤ i ∧ ∀ (j : Nat) (e' : Text), s ≤ j → j < i → h.entries[j]? = some e' → ∀ o, ¬ OccursAt t e' o) ∧
+       (d = .reverse → i ≤ s ∧ ∀ (j : Nat) (e' : Text), i < j → j ≤ s → h.entries[j]? = some e' → ∀ o, ¬ OccursAt t e' o)) := by
+  constructor
+  · intro hs
+    obtain ⟨h1, h2, h3, h4, h5⟩ := C09_search_sound h t s d i e off hs
+    have hg : ¬ (t = [] ∨ h.entries.length ≤ s) := by
+      intro hg
+      rw [(C09_search_none h t s d).2 hg] at hs
+      simp at hs
+    refine ⟨fun ht => hg (Or.inl ht), ?_, h1, h2, h3, h4, h5⟩
+    rcases Nat.lt_or_ge s h.entries.length with hlt | hge
+    · exact hlt
+    · exact absurd (Or.inr hge) hg
+  · rintro ⟨ht, hs, hget, ho, hmin, hf, hr⟩
+    obtain ⟨i', e', off', hres, hfw, hrv⟩ :=
+      C09_search_finds h t s d i e off ht hs hget ho ⟨fun hd => (hf hd).1, fun hd => (hr hd).1⟩
+    obtain ⟨hget', ho', hmin', _, _⟩ := C09_search_sound h t s d i' e' off' hres
+    have hi : i' = i := by
+      cases d with
+      | forward =>
+        obtain ⟨a1, a2⟩ := hfw rfl
+        rcases Nat.lt_or_ge i' i with hlt | hge
+        · exact absurd ho' ((hf rfl).2 i' e' a1 hlt hget' off')
+        · omega
+      | reverse =>
+        obtain ⟨a1, a2⟩ := hrv rfl
+        rcases Nat.lt_or_ge i i' with hlt | hge
+        · exact absurd ho' ((hr rfl).2 i' e' hlt a2 hget' off')
+        · omega
+    subst hi
+    have he : e' = e := Option.some.inj (hget'.symm.trans hget)
+    subst he
+    have hoff : off' = off := Nat.le_antisymm (hmin' off ho) (hmin off' ho')
+    subst hoff
+    exact hres
+
+/-- Exact characterisation of a prefix-search answer: `starts_with` answers `(i, e, off)` IF AND
+    ONLY IF the text is non-empty, the start is in range, `e` is the `i`-th oldest entry and starts
+    with the text, `off` is the BYTE length of the text, `i` is on the requested side of `start`
+    (inclusive) and no entry strictly nearer to `start` in that direction starts with the text. -/
+theorem C09_starts_with_iff (h : MemHist) (t : Text) (s : Nat) (d : Dir) (i : Nat) (e : Text) (off : Nat) :
+    h.startsWith t s d = some (i, e, off) ↔
+      (t ≠ [] ∧ s < h.entries.length ∧ h.entries[i]? = some e ∧ t <+: e ∧ off = blen t ∧
+       (d = .forward → s ≤ i ∧ ∀ (j : Nat) (e' : Text), s ≤ j → j < i → h.entries[j]? = some e' → ¬ t <+: e') ∧
+       (d = .reverse → i ≤ s ∧ ∀ (j : Nat) (e' : Text), i < j → j ≤ s → h.entries[j]? = some e' → ¬ t <+: e')) := by
+  constructor
+  · intro hs
+    obtain ⟨h1, h2, h3, h4, h5⟩ := C09_starts_with_sound h t s d i e off hs
+    have hg : ¬ (t = [] ∨ h.entries.length ≤ s) := by
+      intro hg
+      rw [(C09_starts_with_none h t s d).2 hg] at hs
+      simp at hs
+    refine ⟨fun ht => hg (Or.inl ht), ?_, h1, h2, h3, h4, h5⟩
+    rcases Nat.lt_or_ge s h.entries.length with hlt | hge
+    · exact hlt
+    · exact absurd (Or.inr hge) hg
+  · rintro ⟨ht, hs, hget, hp, hoff, hf, hr⟩
+    obtain ⟨i', e', hres, hfw, hrv⟩ :=
+      C09_starts_with_finds h t s d i e ht hs hget hp ⟨fun hd => (hf hd).1, fun hd => (hr hd).1⟩
+    obtain ⟨hget', hp', _, _, _⟩ := C09_starts_with_sound h t s d i' e' (blen t) hres
+    have hi : i' = i := by
+      cases d with
+      | forward =>
+        obtain ⟨a1, a2⟩ := hfw rfl
+        rcases Nat.lt_or_ge i' i with hlt | hge
+        · exact absurd hp' ((hf rfl).2 i' e' a1 hlt hget')
+        · omega
+      | reverse =>
+        obtain ⟨a1, a2⟩ := hrv rfl
+        rcases Nat.lt_or_ge i i' with hlt | hge
+        · exact absurd hp' ((hr rfl).2 i' e' hlt a2 hget')
+        · omega
+    subst hi
+    have he : e' = e := Option.some.inj (hget'.symm.trans hget)
+    subst he
+    subst hoff
+    exact hres
+
+/-- non-vacuity of the hypothesis `h.entries.length ≤ h.maxLen` used by `C09_run_abs`,
+    `C09_len_le_max_from`, `C09_entries_eq_window`: a non-fresh store within its bound. -/
+example :
+    let h : MemHist := { entries := ["x".toList, "é".toList], maxLen := 2, ignoreSpace := true, ignoreDups := false }
+    h.entries.length ≤ h.maxLen ∧
+    (MemHist.run (fun c => c == ' ') h [.add "y".toList, .setMax 1]).1.entries = ["y".toList] := by
+  decide
